@@ -68,6 +68,7 @@ type upH struct {
 	B         *bUp
 	Writes    []*writeRec
 	Flushes   []*Op
+	WriteFlushes []*Op // one goroutine: Write, then Flush
 	Before    []hookBeforeRec
 	After     []hookAfterRec
 	ClosedEv  []string
@@ -410,6 +411,48 @@ func (y *Sys) writeOp(h *upH, task int, id message.DataID, sizes []int) *Op {
 	}}
 	rec.Op = op
 	h.Writes = append(h.Writes, rec)
+	return op
+}
+
+// writeFlushRes: what one application goroutine saw when it wrote points and then flushed.
+type writeFlushRes struct {
+	FlushErr         error
+	LastSeq          uint32
+	OwnStillBuffered []string // its own points that State() still showed in the buffer after Flush had returned nil
+}
+
+// writeFlushOp: one goroutine writes and then flushes (the common "send this now" idiom).
+func (y *Sys) writeFlushOp(h *upH, task int, id message.DataID, sizes []int) *Op {
+	dps, pts := h.nextPoints(task, id, sizes)
+	rec := &writeRec{Up: h, ID: id, Points: pts}
+	op := &Op{Name: "Write+Flush", Args: fmt.Sprintf("u%d %s n=%d sizes=%v", h.Idx, id.Name, len(sizes), sizes), Meta: rec, Run: func(ctx context.Context) (any, error) {
+		idc := id
+		if err := h.U.WriteDataPoints(ctx, &idc, dps...); err != nil {
+			return nil, err // the write was refused: nothing was accepted
+		}
+		res := &writeFlushRes{}
+		if err := h.U.Flush(ctx); err != nil {
+			res.FlushErr = err
+			return res, nil
+		}
+		st := h.U.State()
+		res.LastSeq = st.LastIssuedSequenceNumber
+		own := map[string]bool{}
+		for _, p := range pts {
+			own[ptKey(p)] = true
+		}
+		for _, g := range st.DataPointsBuffer {
+			for _, dp := range g.DataPoints {
+				if k := ptKey(pt{ID: *g.DataID, Elapsed: dp.ElapsedTime, Payload: string(dp.Payload)}); own[k] {
+					res.OwnStillBuffered = append(res.OwnStillBuffered, k)
+				}
+			}
+		}
+		return res, nil
+	}}
+	rec.Op = op
+	h.Writes = append(h.Writes, rec)
+	h.WriteFlushes = append(h.WriteFlushes, op)
 	return op
 }
 
